@@ -56,6 +56,7 @@ type Top struct {
 	closures   map[string]Val
 	nbound     int
 	hookSeen   map[string]bool // callee names that reached callHooks (to report hooks that match nothing)
+	hookCond   Term            // set while the hooks of a conditional event (a select's send case) run
 	goCaps     []refComp       // reference components handed to the goroutine at the current go statement
 	epochHeaps map[string]Term
 	epochMerge map[int][]epochPart
@@ -695,6 +696,10 @@ func (fr *Frame) execBody(st0 *State) (*State, []Val) {
 		cur := rets[len(rets)-1].vals[k]
 		for i := len(rets) - 2; i >= 0; i-- {
 			m, ok := iteVal(rets[i].st.pc, rets[i].vals[k], cur)
+			if !ok && (rets[i].vals[k].K == KClosure || cur.K == KClosure) {
+				// different function literals (or one and nil) returned on different paths: opaque references
+				m, ok = iteVal(rets[i].st.pc, fr.opaque(merged, rets[i].vals[k]), fr.opaque(merged, cur))
+			}
 			if !ok {
 				panic(unsupported("cannot merge return values"))
 			}
